@@ -128,7 +128,28 @@ func strSexp(i int) sx.S {
 	return sx.L("s", sx.A(i), pi, pf, pb, pt)
 }
 
-var timeZoo = []time.Time{time.Date(2020, 2, 3, 4, 5, 6, 7, time.UTC), time.Date(1999, 12, 31, 23, 59, 59, 0, time.FixedZone("x", 3600))}
+var timeZoo = []time.Time{time.Date(2020, 2, 3, 4, 5, 6, 7, time.UTC), time.Date(1999, 12, 31, 23, 59, 59, 0, time.FixedZone("x", 3600)),
+	// within the years 0..9999 in UTC, next to the boundary in another zone
+	time.Date(9999, 12, 31, 23, 0, 0, 0, time.FixedZone("e", 3600)),
+	time.Date(0, 1, 1, 0, 30, 0, 0, time.FixedZone("w", -3600)),
+	time.Date(10000, 1, 1, 0, 30, 0, 0, time.FixedZone("e", 3600)), // the local year is 10000, the instant lies in 9999
+	time.Date(-1, 12, 31, 23, 30, 0, 0, time.FixedZone("w", -3600)),
+}
+
+// timeOutZoo: instants whose year in UTC is outside 0..9999 (ids 100..): RFC 3339 cannot write them
+var timeOutZoo = []time.Time{
+	time.Date(9999, 12, 31, 22, 0, 0, 0, time.FixedZone("w", -7*3600)), // the local year is 9999, the instant lies in 10000
+	time.Date(0, 1, 1, 0, 0, 0, 0, time.FixedZone("e", 3600)),
+	time.Date(10000, 1, 1, 0, 0, 0, 0, time.UTC),
+	time.Date(-1, 6, 1, 0, 0, 0, 0, time.UTC),
+}
+
+func timeByID(id int) time.Time {
+	if id >= 100 {
+		return timeOutZoo[id-100]
+	}
+	return timeZoo[id]
+}
 
 type foreign struct{ X int }
 
@@ -181,7 +202,7 @@ func coerceGoValue(v sx.S) interface{} {
 		}
 		return out
 	case "time":
-		return timeZoo[sx.Int(l[1])]
+		return timeByID(sx.Int(l[1]))
 	}
 	panic("bad cv")
 }
@@ -326,7 +347,7 @@ func canonOut(out interface{}, in sx.S) sx.S {
 				return sx.L("symname", inl[1])
 			}
 		case "time":
-			if t == timeZoo[sx.Int(inl[1])].In(time.UTC).Format(time.RFC3339Nano) {
+			if t == timeByID(sx.Int(inl[1])).In(time.UTC).Format(time.RFC3339Nano) {
 				return sx.L("timetext", sx.L("tin", inl[1]))
 			}
 		}
@@ -334,7 +355,7 @@ func canonOut(out interface{}, in sx.S) sx.S {
 	case time.Time:
 		switch inHead {
 		case "time":
-			if t.Equal(timeZoo[sx.Int(inl[1])]) {
+			if t.Equal(timeByID(sx.Int(inl[1]))) {
 				return sx.L("timev", sx.L("tin", inl[1]))
 			}
 		case "i":
@@ -846,7 +867,8 @@ var scalarNames = []string{"Int", "Int64", "Float", "Float64", "String", "Boolea
 
 func leafValues() []sx.S {
 	var out []sx.S
-	out = append(out, "nil", "other", sx.L("b", "1"), sx.L("b", "0"), sx.L("sym", "2"), sx.L("sym", "9"), sx.L("time", "0"), sx.L("time", "1"))
+	out = append(out, "nil", "other", sx.L("b", "1"), sx.L("b", "0"), sx.L("sym", "2"), sx.L("sym", "9"), sx.L("time", "0"), sx.L("time", "1"),
+		sx.L("time", "2"), sx.L("time", "3"), sx.L("time", "4"), sx.L("time", "5"), sx.L("time", "100"), sx.L("time", "101"), sx.L("time", "102"), sx.L("time", "103"))
 	for _, k := range kindNames {
 		for _, z := range intZoo {
 			if fitsKind(k, z) {
